@@ -211,6 +211,16 @@ def fetch (s : Srv) (i : Nat) (byUid : Bool) (set : List Elem) (wantFlags wantUi
       (wantFlags && rc.contains p.2) (if byUid || wantUid then some p.2 else none))
     finish (s.setBox x.box b') i x (!byUid) byUid [] .ok (if gone.isEmpty then "" else "EXPUNGEISSUED") own
 
+/-- the uids `find_deleted` hands to `mbx.delete`: `MailboxData.get` never answers "gone" — for a message another session
+has already expunged it returns a copy of the cached object, so a stale view re-expunges it (the mailbox content is not
+affected, but the expunge is logged again under a new mod-sequence) -/
+def expungeUids (s : Srv) (x : Sel) (uidSet : Option (List Elem)) : List Nat :=
+  let b := s.box x.box
+  let cand := (targets x.view true (uidSet.getD [.range (.num 1) .star])).map (·.2)
+  cand.filter (fun u => match b.find u with
+    | some m => m.flags.contains deletedF
+    | none => (graveFlags s x.box u x).contains deletedF)
+
 /-- EXPUNGE / UID EXPUNGE -/
 def expunge (s : Srv) (i : Nat) (uidSet : Option (List Elem)) : Srv × Resp :=
   match s.sel i with
@@ -219,7 +229,7 @@ def expunge (s : Srv) (i : Nat) (uidSet : Option (List Elem)) : Srv × Resp :=
     if x.ro then (s, { status := .no, code := "READ-ONLY" })
     else
       let b := s.box x.box
-      let b' := expungeCmd b x.view uidSet
+      let b' := delete b (expungeUids s x uidSet)
       let goneMsgs := b.msgs.filter (fun m => (b'.find m.uid).isNone)
       let s1 := { (s.setBox x.box b') with grave := goneMsgs.map (fun m => (x.box, m.uid, m.flags)) ++ s.grave }
       finish s1 i x false (uidSet.isSome) [] .ok "" (fun _ => [])
@@ -290,7 +300,7 @@ def close (s : Srv) (i : Nat) : Srv × Resp :=
     if x.ro then (s.setSel i none, { status := .ok })
     else
       let b := s.box x.box
-      let b' := expungeCmd b x.view none
+      let b' := delete b (expungeUids s x none)
       let goneMsgs := b.msgs.filter (fun m => (b'.find m.uid).isNone)
       ({ ((s.setBox x.box b').setSel i none) with grave := goneMsgs.map (fun m => (x.box, m.uid, m.flags)) ++ s.grave },
        { status := .ok })
